@@ -823,7 +823,8 @@ func (r *rewriter) stmt(s ast.Stmt) []ast.Stmt {
 		return r.selectStmt(x)
 	case *ast.SendStmt:
 		r.funcLits(x)
-		return []ast.Stmt{r.yield("send"), x, r.yield("sent")}
+		r.stats["send_rewrites"]++
+		return []ast.Stmt{r.yield("send"), &ast.ExprStmt{X: r.call("SendOrExit", x.Chan, x.Value)}, r.yield("sent")}
 	case *ast.GoStmt:
 		return r.goStmt(x)
 	case *ast.DeferStmt:
@@ -845,9 +846,29 @@ func (r *rewriter) stmt(s ast.Stmt) []ast.Stmt {
 			return []ast.Stmt{&ast.ExprStmt{X: ce}}
 		}
 		r.funcLits(x)
+		if u, ok := x.X.(*ast.UnaryExpr); ok && u.Op == token.ARROW {
+			r.stats["recv_rewrites"]++
+			return r.wrapSync(&ast.ExprStmt{X: r.call("RecvOrExit", u.X)}, x)
+		}
 		return r.wrapSync(x, x)
 	case *ast.AssignStmt:
 		r.funcLits(x)
+		if len(x.Rhs) == 1 {
+			if u, ok := x.Rhs[0].(*ast.UnaryExpr); ok && u.Op == token.ARROW {
+				si := r.classifyExpr(x)
+				r.stats["recv_rewrites"]++
+				fn := "RecvOrExit"
+				if len(x.Lhs) == 2 {
+					fn = "RecvOrExit2"
+				}
+				x.Rhs[0] = r.call(fn, u.X)
+				out := []ast.Stmt{r.yield(si.pre), x}
+				if si.post {
+					out = append(out, r.yield(si.pre+"-woke"))
+				}
+				return out
+			}
+		}
 		return r.wrapSync(x, x)
 	case *ast.DeclStmt:
 		r.funcLits(x)
@@ -975,6 +996,10 @@ func (r *rewriter) selectStmt(x *ast.SelectStmt) []ast.Stmt {
 	if hasDefault {
 		fallback = []ast.Stmt{assign(token.ASSIGN, []ast.Expr{sel}, lit(n))}
 	} else {
+		// (one more case: the end of the run, see simrt.Done)
+		blockCases = append(blockCases, &ast.CommClause{
+			Comm: &ast.ExprStmt{X: &ast.UnaryExpr{Op: token.ARROW, X: r.call("Done")}},
+			Body: []ast.Stmt{&ast.ExprStmt{X: r.call("ExitShutdown")}}})
 		fallback = []ast.Stmt{&ast.SelectStmt{Body: &ast.BlockStmt{List: blockCases}}}
 	}
 	out = append(out, &ast.IfStmt{Cond: &ast.BinaryExpr{X: sel, Op: token.LSS, Y: lit(0)}, Body: &ast.BlockStmt{List: fallback}})
